@@ -52,6 +52,8 @@ static Skinny64ParallelECBVtable_t const skinny64_parallel_ecb_vec128 = {
 int skinny64_parallel_ecb_init(Skinny64ParallelECB_t *ecb)
 {
     Skinny64Key_t *ctx;
+    if (!ecb)
+        return 0;
     if ((ctx = calloc(1, sizeof(Skinny64Key_t))) == NULL) {
         /* Leave the object in a state that is safe to clean up */
         ecb->vtable = 0;
